@@ -394,16 +394,24 @@ def mem_key(g):
 
 try:
     MEM_PROFILE = json.load(open(os.path.join(VERIF, "lib", "mem_profile.json")))
+    MEM_SMALL = set(MEM_PROFILE.get("small", []))
 except Exception:
-    MEM_PROFILE = {}
+    MEM_PROFILE, MEM_SMALL = {}, set()
 
 
 def mem_estimate(g):
-    """expected peak solver memory of a group in GB: the largest peak recorded for its (harness, enforced function,
-    configuration) in lib/mem_profile.json (built from earlier evidence by tools/mem_profile.py), else a default"""
-    est = MEM_PROFILE.get(mem_key(g))
-    if est is None:
-        est = {"h_isap.c": 5, "h_asconsum.c": 11}.get(os.path.basename(g.harness), 2)
+    """expected peak solver memory of a group in GB, from lib/mem_profile.json (built from earlier evidence by
+    tools/mem_profile.py): the group's own recorded peak if it was seen before, else the largest peak recorded for its
+    (harness, enforced function, configuration), else a default"""
+    n = g.name.split(".", 1)[1] if "." in g.name else g.name
+    if n in MEM_PROFILE.get("names", {}):
+        est = MEM_PROFILE["names"][n]
+    elif n in MEM_SMALL:
+        est = 1
+    else:
+        est = MEM_PROFILE.get("keys", {}).get(mem_key(g))
+        if est is None:
+            est = {"h_isap.c": 5, "h_asconsum.c": 11}.get(os.path.basename(g.harness), 2)
     return max(getattr(g, "mem_gb", 0) or 0, est)
 
 
